@@ -224,6 +224,8 @@ impl ConfigReloader {
 
     fn run(&mut self, mut rate: Duration) {
         loop {
+            #[cfg(feature = "verif_hooks")]
+            crate::verif::sync_point("reloader.sleep", rate.as_millis() as u64);
             thread::sleep(rate);
 
             match self.run_once(rate) {
